@@ -52,6 +52,12 @@ def _do_chunked_reproject(
     dst_shape = ba.with_yx(ba.shape, dst_gbox.shape)
     dst = np.zeros(dst_shape, dtype=dtype)
 
+    if dst_nodata is None and src_nodata is None and dst.dtype.kind == "f":
+        # No nodata configured: pixels not reached by the source are NaN for floating
+        # point data, same as in ``rio_reproject`` and as in the constant blocks
+        # produced with ``resolve_fill_value`` for chunks without any source data.
+        dst_nodata = np.nan
+
     for src_roi in ba.planes_yx():
         src = ba.extract(src_nodata, dtype=dtype, casting=casting, roi=src_roi)
         dst_roi = ba.with_yx(src_roi, np.s_[:, :])
